@@ -8,6 +8,7 @@
 //!   `D <fmt> <w> <h> <seed>`                             decode byte consumption
 //!   `E <fmt> <w> <h> <color 0..11> <par 0|1> <seed>`     encode success / length
 //!   `T <fmt> <w> <h> <color 0..11> <seed>`               dithering acts only where advertised / requested
+//!   `G <fmt> <color 0..11>`                              dithering canary (which path `pick_encoder` takes)
 //!
 //! The oracle (strings returned in the second component) evaluates the clauses of C19 directly
 //! on the implementation: two API paths compared with each other, byte positions of a `Cursor`,
@@ -330,6 +331,14 @@ pub fn gen(seed: u64, thorough: bool) -> Vec<String> {
         }
     }
 
+    // (3a) dithering canary: a fixed smooth RGBA f32 gradient on which every dithering path visibly
+    // differs from the plain path; ties `pick_encoder` (which path is taken) to the model
+    for f in 0..nf {
+        // f32 inputs only: integer inputs are often exactly representable, so that a dithering path
+        // legitimately produces the same bytes
+        // (and RGBA only: a constant alpha of 1.0 is exactly representable as well)
+        out.push(format!("G {f} 11"));
+    }
     // (3) dithering
     let sizes: &[(u32, u32)] = &[(8, 8), (4, 4), (6, 2), (2, 6), (12, 4), (16, 16), (10, 10), (32, 2), (2, 2), (14, 6)];
     let reps = if thorough { 12 } else { 1 };
@@ -823,9 +832,57 @@ fn run_dither(t: &[&str]) -> Option<(String, Vec<String>)> {
     Some((s, oracle))
 }
 
+/// Canary: 48x8 gradient, every channel a different slow ramp through non-representable values.
+fn run_canary(t: &[&str]) -> Option<(String, Vec<String>)> {
+    if t.len() != 3 {
+        return None;
+    }
+    let f = *FORMATS.get(p_usize(t[1])?)?;
+    let color = *COLORS.get(p_usize(t[2])?)?;
+    let support = match f.encoding_support() {
+        None => return Some(("unsupported".into(), vec![])),
+        Some(s) => s,
+    };
+    let size = Size::new(48, 8);
+    if !support.supports_size(size) {
+        return Some(("unsupported-size".into(), vec![]));
+    }
+    let nch = color.channels.count() as usize;
+    let mut img: Vec<u8> = vec![];
+    for y in 0..8usize {
+        for x in 0..48usize {
+            for ch in 0..nch {
+                let k = (x * (5 + 2 * ch) + y * (17 + 4 * ch) + 31 * ch) % 397;
+                let v = k as f32 / 397.0;
+                match color.precision {
+                    Precision::U8 => img.push((v * 255.0 + 0.5) as u8),
+                    Precision::U16 => img.extend_from_slice(&((v * 65535.0 + 0.5) as u16).to_ne_bytes()),
+                    Precision::F32 => img.extend_from_slice(&v.to_ne_bytes()),
+                }
+            }
+        }
+    }
+    let mut outs: Vec<Vec<u8>> = vec![];
+    for d in [Dithering::None, Dithering::Color, Dithering::Alpha, Dithering::ColorAndAlpha] {
+        let view = ImageView::new(&img, size, color)?;
+        let mut options = EncodeOptions::default();
+        options.parallel = false;
+        options.quality = CompressionQuality::Fast;
+        options.dithering = d;
+        let mut o: Vec<u8> = vec![];
+        if encode(&mut o, view, f, None, &options).is_err() {
+            return Some(("err".into(), vec!["encode failed for a supported size".into()]));
+        }
+        outs.push(o);
+    }
+    let e = |x: &Vec<u8>, y: &Vec<u8>| if x == y { "1" } else { "0" };
+    Some((format!("C={} A={} CA={}", e(&outs[0], &outs[1]), e(&outs[0], &outs[2]), e(&outs[0], &outs[3])), vec![]))
+}
+
 pub fn run(line: &str) -> Option<(String, Vec<String>)> {
     let t = toks(line);
     match *t.first()? {
+        "G" => run_canary(&t),
         "H" => run_header(&t),
         "M" => run_meta(&t),
         "D" => run_decode(&t),
